@@ -262,10 +262,85 @@ func init() {
 		"go.uber.org/multierr.Append": func(e *Exec, st *State, f *ssa.Function, args []Value, pos token.Pos) Value {
 			return e.combineErrors(st, []*IfaceV{args[0].(*IfaceV), args[1].(*IfaceV)})
 		},
+		"encoding/json.Unmarshal": func(e *Exec, st *State, f *ssa.Function, args []Value, pos token.Pos) Value {
+			// err == nil ==> *v == jsonDecode_T(data); on error the target is arbitrary
+			c := e.C
+			data := e.seqTerm(st, e.sliceSeq(st, args[0].(*SliceV)))
+			errv := e.fresh(errorType, "json_err").(*IfaceV)
+			ok := e.ifaceNil(errv)
+			iv, isI := args[1].(*IfaceV)
+			if !isI || len(iv.Alts) != 1 || iv.Alts[0].Typ == nil {
+				e.refuse("json.Unmarshal into a value of unknown dynamic type")
+			}
+			pv, isP := iv.Alts[0].Val.(*PtrV)
+			if !isP {
+				e.refuse("json.Unmarshal into a non-pointer")
+			}
+			T := pv.Elem
+			dec := e.fromTerm(T, c.App("jsonDecode_"+sortName(T), sortOf(T), data), "json")
+			for _, al := range pv.Alts {
+				if al.Loc == nil {
+					continue
+				}
+				e.frameCheck(st, al.Loc, al.Cond, "json.Unmarshal target", pos)
+				old := e.loadLoc(st, al.Loc)
+				nv := e.merge(ok, dec, e.havocLike(old, "json_partial"))
+				if !al.Cond.IsTrue() {
+					nv = e.merge(al.Cond, nv, old)
+				}
+				e.storeLoc(st, al.Loc, nv)
+			}
+			return errv
+		},
+		"encoding/asn1.Unmarshal": func(e *Exec, st *State, f *ssa.Function, args []Value, pos token.Pos) Value {
+			// err == nil ==> (*val, rest) == asn1Decode_T(b); rest is a suffix of b (never written)
+			c := e.C
+			in := args[0].(*SliceV)
+			data := e.seqTerm(st, e.sliceSeq(st, in))
+			errv := e.fresh(errorType, "asn1_err").(*IfaceV)
+			ok := e.ifaceNil(errv)
+			iv, isI := args[1].(*IfaceV)
+			if !isI || len(iv.Alts) != 1 || iv.Alts[0].Typ == nil {
+				e.refuse("asn1.Unmarshal into a value of unknown dynamic type")
+			}
+			pv, isP := iv.Alts[0].Val.(*PtrV)
+			if !isP {
+				e.refuse("asn1.Unmarshal into a non-pointer")
+			}
+			T := pv.Elem
+			sn := sortName(T)
+			dec := e.fromTerm(T, c.App("asn1Decode_"+sn, sortOf(T), data), "asn1")
+			for _, al := range pv.Alts {
+				if al.Loc == nil {
+					continue
+				}
+				e.frameCheck(st, al.Loc, al.Cond, "asn1.Unmarshal target", pos)
+				old := e.loadLoc(st, al.Loc)
+				nv := e.merge(ok, dec, e.havocLike(old, "asn1_partial"))
+				if !al.Cond.IsTrue() {
+					nv = e.merge(al.Cond, nv, old)
+				}
+				e.storeLoc(st, al.Loc, nv)
+			}
+			restSeq := c.App("asn1Rest_"+sn, sortByteSeq, data)
+			restLen := c.App("seq_len", smt.BV(64), restSeq)
+			e.addAxioms(c.BVSle(bv64(c, 0), restLen), c.BVSle(restLen, in.Len))
+			o := e.newLocal(mkRegionType(in.Elem), "asn1rest")
+			el := in.Elem
+			st.mem[o] = &ArrV{Elem: el, N: -1, Read: func(i *smt.Term) Value {
+				return Scalar{T: c.App("seq_at8", smt.BV(8), restSeq, i), Typ: el}
+			}}
+			rest := &SliceV{Elem: el, Len: restLen, Cap: restLen, Alts: []SliceAlt{{Cond: c.True(), Loc: &Loc{Obj: o}, Off: bv64(c, 0)}}}
+			return &TupleV{Vs: []Value{rest, errv}}
+		},
+		"reflect.DeepEqual": func(e *Exec, st *State, f *ssa.Function, args []Value, pos token.Pos) Value {
+			// unconstrained boolean (sound over-approximation; the verdict never relies on it)
+			return Scalar{T: e.C.Fresh("deepequal", smt.Bool), Typ: boolTyp}
+		},
 		"crypto/sha256.Sum256": func(e *Exec, st *State, f *ssa.Function, args []Value, pos token.Pos) Value {
 			c := e.C
 			in := e.seqTerm(st, e.sliceSeq(st, args[0].(*SliceV)))
-			h := c.App("SHA256", sortByteSeq, in)
+			h := c.App("spec_SHA256", sortByteSeq, in)
 			e.addAxioms(c.Eq(c.App("seq_len", smt.BV(64), h), bv64(c, 32)))
 			el := types.Typ[types.Uint8]
 			return &ArrV{Elem: el, N: 32, Read: func(i *smt.Term) Value {
